@@ -140,7 +140,7 @@ fn step(t: &mut Twins, pm: DMode, sm: DMode, driver: Arc<dyn Driver>, rep: &mut 
     // overlaps actually achieved (evidence that the schedule driver produced concurrency)
     if !out.overflow {
         let mut f = Vec::new();
-        let opts = crate::oracle::EOpts { expect_tl: pm.runs_tl(), caller_thread: out.caller, outer_mode: pm.outer() , top_mult: 1};
+        let opts = crate::oracle::EOpts { expect_tl: pm.runs_tl(), caller_thread: out.caller, outer_mode: pm.outer() , top_mult: 1, partial: false};
         let st = crate::oracle::e_oracle(&t.p.plan, &out.events, &opts, &mut f);
         est.0 += st.unordered_overlaps;
         est.1 += st.unordered_pairs;
